@@ -69,6 +69,14 @@ theorem pres_get_bind {β} (f : St → M β) (h : ∀ s, ((f s).run.run s).2.bva
     Pres (get >>= f) := by
   constructor; intro s; rw [run_bind]; exact h s
 
+theorem pres_markKeyM (k : Val) : Pres (markKeyM k) := by
+  unfold markKeyM
+  exact pres_get_bind _ (fun s => by split <;> rfl)
+
+theorem pres_guardKeyed (id : Nat) : Pres (guardKeyed id) := by
+  unfold guardKeyed
+  exact pres_get_bind _ (fun s => by split <;> rfl)
+
 theorem pres_siteCell (c : Nat) : Pres (siteCell c) := by
   unfold siteCell
   apply pres_get_bind
@@ -106,6 +114,8 @@ macro "pres_step" : tactic => `(tactic| first
   | with_reducible exact pres_reflectM _
   | with_reducible exact pres_mkClos _
   | with_reducible exact pres_siteCell _
+  | with_reducible exact pres_markKeyM _
+  | with_reducible exact pres_guardKeyed _
   | with_reducible exact pres_ofExpect _ _
   | ((with_reducible apply pres_modify); intro _; rfl)
   | with_reducible assumption
